@@ -16,6 +16,8 @@ Checking requests (`<op> <args…> => <implementation output>`, answered `model=
   varint <int> => <hex>                    validation of Base/RecWire.varint against the library writers
   wmodel2 <attrs> <now> <recs> => <hex>    Model/RecordWriter.writeV2 ≡ protocol writeToVersion2 (uncompressed)
   lmodel2 <recs-with-ns-times> => <hex>    Model/RecordWriter.legacyBatch ≡ write.go writeRecordBatch
+  pages <holders> <churners> <rounds> => ok   observational page-safety test (held key/value bytes intact while
+                                           other decodes recycle pooled pages); Lean side: Props/C05 pages_safe
 Encoding requests (no ` => `; answered with hex or `error`):
   encrecs <rec>;<rec>…                     → Spec.encRecs
   encset <entry> <entry> …                 → Spec.encSet
@@ -189,6 +191,7 @@ def step (line : String) : String :=
         match zargs.mapM (parseZ bytes) with
         | none => "bad-op"
         | some zs => checkWire tag bytes zs impl
+    | ["pages", _, _, _] => s!"model=ok holds={if impl == "ok" then 1 else 0}"
     | ["crc", kind, hx] =>
       match ofHex hx with
       | some b =>
